@@ -27,6 +27,16 @@ class C03(InterpProp):
         return gen.Knobs(p_orth=0.5, nested_targets=0.4, max_depth=5, max_states=rnd.choice([10, 18, 24]),
                          sends=0.35, trans_per_owner=2.0)
 
+    def gen_case(self, rnd, tier):
+        case = super().gen_case(rnd, tier)
+        if rnd.random() < 0.08:
+            # the documented outer-first variation (the selection hook overridden with its own flag): which
+            # transitions fire differs, how they are processed does not (implementation only)
+            case.payload['outer_first'] = True
+            case.payload['no_model'] = True
+            case.model_ok = False
+        return case
+
     def check_exec(self, info, res):
         r, gh, sc, trans = info['r'], info['ghost'], info['sc'], info['trans']
         if not gh.clean or gh.final:
